@@ -644,32 +644,31 @@ fn can_start_operand(k: K) -> bool {
 pub fn blank_is_significant(t: &[Tok], i: usize) -> bool {
     t[i].k == K::Blank && i > 0 && i + 1 < t.len() && can_end_operand(t[i - 1].k) && can_start_operand(t[i + 1].k)
 }
-/// Drop insignificant blank runs; drop the sheet qualifier in front of `#REF!` (a dead reference is compared
-/// modulo the spelling `Sheet2!#REF!` / `#REF!`, DESIGN 9.3).
+/// Drop insignificant blank runs.
 pub fn canon(t: &[Tok]) -> Vec<Tok> {
-    let mut v: Vec<Tok> = vec![];
-    for i in 0..t.len() {
-        if t[i].k == K::Blank && !blank_is_significant(t, i) {
-            continue;
-        }
-        if t[i].k == K::Err && t[i].text == "#REF!" {
-            if let Some(l) = v.last() {
-                if l.k == K::Run && l.text.ends_with('!') && !l.text[..l.text.len() - 1].contains('!') {
-                    let bare = l.text == "!";
-                    v.pop();
-                    if bare {
-                        if let Some(q) = v.last() {
-                            if q.k == K::QSheet {
-                                v.pop();
-                            }
-                        }
-                    }
-                }
+    (0..t.len()).filter(|&i| !(t[i].k == K::Blank && !blank_is_significant(t, i))).map(|i| t[i].clone()).collect()
+}
+/// If a sheet qualifier in front of `#REF!` starts at `i` (`Sheet2!` `#REF!` or `'My Sheet'` `!` `#REF!`), the index of
+/// that `#REF!` token: a dead reference is compared modulo the spelling `Sheet2!#REF!` / `#REF!` (DESIGN 9.3).
+fn dead_qualifier_at(t: &[Tok], i: usize) -> Option<usize> {
+    let is_ref_err = |j: usize| t.get(j).map(|x| x.k == K::Err && x.text == "#REF!").unwrap_or(false);
+    match t.get(i) {
+        Some(x) if x.k == K::QSheet => {
+            if t.get(i + 1).map(|y| y.k == K::Run && y.text == "!").unwrap_or(false) && is_ref_err(i + 2) {
+                Some(i + 2)
+            } else {
+                None
             }
         }
-        v.push(t[i].clone());
+        Some(x) if x.k == K::Run && x.text.len() > 1 && x.text.ends_with('!') && !x.text[..x.text.len() - 1].contains('!') => {
+            if is_ref_err(i + 1) {
+                Some(i + 1)
+            } else {
+                None
+            }
+        }
+        _ => None,
     }
-    v
 }
 pub fn tok_eq(a: &Tok, b: &Tok) -> bool {
     a.k == b.k && (a.k == K::Blank || a.text == b.text)
@@ -807,6 +806,17 @@ pub fn rk_parts(k: &RK) -> Vec<P> {
         RK::Rows { r1, r2 } => vec![*r1, *r2],
     }
 }
+pub fn axis_parts(k: &RK, a: Axis) -> Vec<P> {
+    match (k, a) {
+        (RK::Cell { c, .. }, Axis::Col) => vec![*c],
+        (RK::Cell { r, .. }, Axis::Row) => vec![*r],
+        (RK::Range { c1, c2, .. }, Axis::Col) => vec![*c1, *c2],
+        (RK::Range { r1, r2, .. }, Axis::Row) => vec![*r1, *r2],
+        (RK::Cols { c1, c2 }, Axis::Col) => vec![*c1, *c2],
+        (RK::Rows { r1, r2 }, Axis::Row) => vec![*r1, *r2],
+        _ => vec![],
+    }
+}
 fn same_shape(a: &RK, b: &RK) -> bool {
     std::mem::discriminant(a) == std::mem::discriminant(b)
 }
@@ -825,29 +835,66 @@ pub struct Damage {
 /// `out-of-grid-not-REF`).  Tokens left of the first divergence are verified; the first damaged token decides
 /// the symptom and the tag (the feature that emitted this token).
 pub fn compare(exp: &Rendered, orig: &Rendered, got: &str, dead_label: &str) -> Option<Damage> {
+    compare_axis(exp, orig, got, dead_label, None)
+}
+/// `axis`: the axis the operation moves things along (insert/remove of rows or columns), used to tell a dead reference
+/// that stayed because its parts on that axis are `$`-locked from one that stayed for another reason.
+pub fn compare_axis(exp: &Rendered, orig: &Rendered, got: &str, dead_label: &str, axis: Option<Axis>) -> Option<Damage> {
+    if got == exp.text {
+        return None; // fast path: character-identical
+    }
     let et = canon(&lex(&exp.text));
     let gt = canon(&lex(got));
-    let mut i = 0;
-    while i < et.len() && i < gt.len() && tok_eq(&et[i], &gt[i]) {
-        i += 1;
+    let mut i = 0; // index into et
+    let mut j = 0; // index into gt
+    let mut skipped_quoted: Option<usize> = None;
+    loop {
+        if i < et.len() && j < gt.len() && tok_eq(&et[i], &gt[j]) {
+            i += 1;
+            j += 1;
+            continue;
+        }
+        // the qualifier of a dead reference may be omitted by the library
+        if let Some(e) = dead_qualifier_at(&et, i) {
+            if gt.get(j).map(|g| g.k == K::Err && g.text == "#REF!").unwrap_or(false) {
+                if et[i].k == K::QSheet {
+                    skipped_quoted = Some(i);
+                }
+                i = e;
+                continue;
+            }
+        }
+        // ... or kept where the expectation spells it without
+        break;
     }
-    if i == et.len() && i == gt.len() {
+    if i == et.len() && j == gt.len() {
         return None;
     }
-    let detail = format!("expected {:?}, got {:?} (first divergence at token {}: expected {:?}, got {:?})", exp.text, got, i, et.get(i).map(|t| &t.text), gt.get(i).map(|t| &t.text));
+    let detail = format!("expected {:?}, got {:?} (first divergence: expected token {:?}, got token {:?})", exp.text, got, et.get(i).map(|t| &t.text), gt.get(j).map(|t| &t.text));
+    if let Some(qi) = skipped_quoted {
+        // a quoted qualifier was waived earlier and the formula diverges after it: the library is known to lose
+        // everything behind an apostrophe, so the damage cannot be told apart from that
+        let tag = exp.owner(et[qi].start).and_then(|p| p.leaf).and_then(|li| match &exp.leaves[li] {
+            Leaf::Ref(r) => r.q.tag(),
+            Leaf::RefErr(q, _) => q.tag(),
+            _ => None,
+        });
+        return Some(Damage { symptom: "quoted-sheet:rest-of-formula-lost".into(), tags: vec![tag.unwrap_or("q-quoted-space")], detail });
+    }
     if i == et.len() {
         // the library appended something
         let tag = exp.pieces.last().map(|p| p.tag).unwrap_or("formula");
         return Some(Damage { symptom: "tail:extra-tokens".into(), tags: vec![tag], detail });
     }
     let e = &et[i];
-    let g = gt.get(i);
+    let g = gt.get(j);
     let piece = exp.owner(e.start).cloned().unwrap_or(Piece { start: 0, end: 0, tag: "formula", leaf: None, layout_blank: false });
+    // dropped = the token at this position is of another kind (the expected token is missing rather than altered)
     let deleted = match g {
         None => true,
-        Some(g) => et.get(i + 1).map(|n| tok_eq(n, g)).unwrap_or(false),
+        Some(g) => g.k != e.k || et.get(i + 1).map(|n| tok_eq(n, g)).unwrap_or(false),
     };
-    let rest_got: String = gt[i..].iter().map(|t| t.text.as_str()).collect();
+    let rest_got: String = gt[j..].iter().map(|t| t.text.as_str()).collect();
     let generic = |kind: &str| -> String {
         if deleted {
             format!("{}:dropped", kind)
@@ -886,8 +933,7 @@ pub fn compare(exp: &Rendered, orig: &Rendered, got: &str, dead_label: &str) -> 
                         LitKind::Bool => generic("bool"),
                         LitKind::Err => generic("error-literal"),
                         LitKind::Name => match g {
-                            Some(g) if g.k == K::Run && text.starts_with(g.text.as_str()) && parse_ref_run(&g.text).is_some() => "name:truncated-to-ref".to_string(),
-                            Some(g) if g.k == K::Run && parse_ref_run(&g.text).is_some() => "name:rewritten-as-ref".to_string(),
+                            Some(g) if (g.k == K::Run && parse_ref_run(&g.text).is_some()) || (g.k == K::Err && g.text == "#REF!") => "name:treated-as-ref".to_string(),
                             _ => generic("name"),
                         },
                         LitKind::Structured | LitKind::External => generic("bracket-ref"),
@@ -901,14 +947,14 @@ pub fn compare(exp: &Rendered, orig: &Rendered, got: &str, dead_label: &str) -> 
                     };
                     (s, vec![*tag])
                 }
-                Leaf::Ref(_) | Leaf::RefErr(..) => classify_ref(leaf, oleaf, e, g, &rest_got, dead_label, deleted),
+                Leaf::Ref(_) | Leaf::RefErr(..) => classify_ref(leaf, oleaf, e, g, &rest_got, dead_label, deleted, axis),
             }
         }
     };
     Some(Damage { symptom, tags, detail })
 }
 
-fn classify_ref(leaf: &Leaf, oleaf: Option<&Leaf>, e: &Tok, g: Option<&Tok>, rest_got: &str, dead_label: &str, deleted: bool) -> (String, Vec<&'static str>) {
+fn classify_ref(leaf: &Leaf, oleaf: Option<&Leaf>, e: &Tok, g: Option<&Tok>, rest_got: &str, dead_label: &str, deleted: bool, axis: Option<Axis>) -> (String, Vec<&'static str>) {
     let (q, shape_tag) = match leaf {
         Leaf::Ref(r) => (&r.q, rk_tag(&r.k)),
         Leaf::RefErr(q, t) => (q, *t),
@@ -922,6 +968,8 @@ fn classify_ref(leaf: &Leaf, oleaf: Option<&Leaf>, e: &Tok, g: Option<&Tok>, res
             "quoted-sheet:quotes-dropped"
         } else if rest_got.starts_with(&format!("{}'!", inner)) {
             "quoted-sheet:opening-quote-dropped"
+        } else if rest_got.starts_with(&format!("\"{}'!", inner)) {
+            "quoted-sheet:swallowed-into-string"
         } else if deleted {
             "quoted-sheet:dropped"
         } else {
@@ -931,8 +979,16 @@ fn classify_ref(leaf: &Leaf, oleaf: Option<&Leaf>, e: &Tok, g: Option<&Tok>, res
     }
     // expected a dead reference
     if let Leaf::RefErr(..) = leaf {
-        if e.k == K::Err {
+        if e.k == K::Err || (e.k == K::Run && e.text.ends_with('!')) {
             let s = match g {
+                Some(g) if g.k == K::Run && matches!((parse_ref_run(&g.text), oleaf), (Some((_, gk)), Some(Leaf::Ref(o))) if gk == o.k) => {
+                    let locked = match (oleaf, axis) {
+                        (Some(Leaf::Ref(o)), Some(a)) => axis_parts(&o.k, a).iter().all(|p| p.abs),
+                        (Some(Leaf::Ref(o)), None) => rk_parts(&o.k).iter().all(|p| p.abs),
+                        _ => false,
+                    };
+                    if locked { "ref:not-shifted-locked".to_string() } else { "ref:not-shifted".to_string() }
+                }
                 Some(g) if g.k == K::Run && parse_ref_run(&g.text).is_some() => format!("ref:{}", dead_label),
                 Some(g) if g.k == K::QSheet => format!("ref:{}", dead_label),
                 _ => "ref:REF-error-missing".to_string(),
@@ -979,6 +1035,12 @@ fn classify_ref(leaf: &Leaf, oleaf: Option<&Leaf>, e: &Tok, g: Option<&Tok>, res
                     if flags_changed {
                         return ("ref:dollar-flags-changed".to_string(), tags);
                     }
+                    // the operation does not concern this reference at all (expected == before), yet it changed
+                    if let Some(Leaf::Ref(o)) = oleaf {
+                        if o.k == ek {
+                            return ("ref:unconcerned-ref-changed".to_string(), tags);
+                        }
+                    }
                     let s = match ok_ {
                         Some(opp) => {
                             let stayed = wrong.iter().all(|&j| gpp[j].n == opp[j].n);
@@ -988,7 +1050,7 @@ fn classify_ref(leaf: &Leaf, oleaf: Option<&Leaf>, e: &Tok, g: Option<&Tok>, res
                                 "ref:not-shifted-locked"
                             } else if stayed {
                                 "ref:not-shifted"
-                            } else if moved_but_should_not && all_locked {
+                            } else if moved_but_should_not && all_locked && axis.is_none() {
                                 "ref:locked-part-shifted"
                             } else if moved_but_should_not {
                                 "ref:shifted-but-should-stay"
@@ -1185,22 +1247,35 @@ pub fn attribute(f: &F, healthy: &Leaf, bad: &dyn Fn(&F) -> bool) -> Vec<&'stati
         f
     }
     let m = minimal(f, bad);
+    // blame for a reference leaf: its qualifier, its shape, or both
+    let blame_leaf = |l: &Leaf, with: &dyn Fn(Leaf) -> F| -> Vec<&'static str> {
+        if let Leaf::Ref(r) = l {
+            if r.q != Qual::None {
+                if bad(&with(Leaf::Ref(Ref { q: Qual::None, k: r.k }))) {
+                    return vec![rk_tag(&r.k)];
+                }
+            }
+        }
+        leaf_tags(l)
+    };
     if let F::L(l) = m {
-        return leaf_tags(l);
+        return blame_leaf(l, &|x| F::L(x));
     }
     let mut tags = vec![];
-    let mut any_child = false;
     let ch = children(m);
     for (i, c) in ch.iter().enumerate() {
         let m2 = with_child(m, i, F::L(healthy.clone()));
         if m2 != *m && !bad(&m2) {
-            any_child = true;
-            tags.extend(formula_tags(c));
+            match c {
+                F::L(l) => tags.extend(blame_leaf(l, &|x| with_child(m, i, F::L(x)))),
+                _ => tags.extend(formula_tags(c)),
+            }
         }
     }
-    // is the node itself needed?  (replace it by its first child: if the child alone is fine, the node matters)
-    let _ = any_child;
-    tags.extend(own_tags(m));
+    // the combinator itself is blamed only when no single child is
+    if tags.is_empty() {
+        tags.extend(own_tags(m));
+    }
     tags.sort();
     tags.dedup();
     tags
@@ -1455,10 +1530,9 @@ fn chain_templates() -> Vec<F> {
 /// The formula space of a tier.  `deep` selects the thorough tier (<=3 leaves over the reduced alphabet, all
 /// <=2-leaf formulas over the full alphabet); the quick tier has all 1-leaf formulas over the full alphabet, 2-leaf
 /// formulas over full x healthy and reduced x reduced, and wrapped / 3-leaf shapes over a 4-leaf core alphabet.
-pub fn main_space(co: Coords, plain: &'static str, deep: bool) -> Enumerator {
+pub fn main_space(co: Coords, plain: &'static str, deep: bool, core: Vec<Leaf>) -> Enumerator {
     let full = full_leaves(co, plain);
     let red = reduced_leaves(co, plain);
-    let core = core_leaves(co, plain);
     let healthy = vec![healthy_leaf(co)];
     let small = if deep { red.clone() } else { core.clone() };
     let mut s = vec![];
